@@ -157,7 +157,7 @@ def plan_shards(tier):
     c34 = list(itertools.product(compositions(3), compositions(4)))
     if tier == "quick":
         add((6,), c6[::3], nans=[(0,), (2, 3), (0, 1, 2, 3, 4, 5)])
-        add((3, 4), c34[::4], nans=[(0,), (4, 5, 6, 7), (1, 5, 9), (0, 1, 4), (0, 4, 5), (2, 3, 6, 11), (0, 1, 2, 4, 8)])
+        add((3, 4), c34[::5], nans=[(0,), (4, 5, 6, 7), (1, 5, 9), (0, 1, 4), (0, 4, 5), (2, 3, 6, 11), (0, 1, 2, 4, 8)])
         add((2, 3, 2), [((1, 1), (2, 1), (2,))])
         add((0, 3), [((0,), (1, 2))])
         add((4,), [(c,) for c in chz(4, 1) if 0 in c][::4])
